@@ -16,8 +16,10 @@ package hotspot
 
 import (
 	"fmt"
+	"math"
 	"reflect"
 	"sync"
+	"sync/atomic"
 
 	"github.com/alibaba/sentinel-golang/logging"
 	"github.com/alibaba/sentinel-golang/util"
@@ -443,6 +445,7 @@ func buildResourceTrafficShapingController(res string, resRules []*Rule, oldResT
 		if reuseStatIdx >= 0 {
 			// generate new traffic shaping controller with reusable statistic metric.
 			tc = generator(rule, oldResTcs[reuseStatIdx].BoundMetric())
+			carryOverTokens(oldResTcs[reuseStatIdx].BoundRule(), rule, oldResTcs[reuseStatIdx].BoundMetric())
 			// remove the reused traffic shaping controller old res tcs
 			oldResTcs = append(oldResTcs[:reuseStatIdx], oldResTcs[reuseStatIdx+1:]...)
 		} else {
@@ -456,6 +459,59 @@ func buildResourceTrafficShapingController(res string, resRules []*Rule, oldResT
 		newTcsOfRes = append(newTcsOfRes, tc)
 	}
 	return newTcsOfRes
+}
+
+// carryOverTokens adjusts the token counters of a QPS / Reject rule whose statistic is taken over by
+// a modified rule. A counter holds what is LEFT of a value's budget (threshold or specific item,
+// plus burst); the budget belongs to the rule. Without the adjustment the budget left under the
+// replaced rule went on deciding until the window had passed: after lowering a threshold from 100
+// to 1 the value could still spend its 99, after raising it from 1 to 100 it stayed exhausted.
+// What was consumed stays consumed: left' = left + (budget' - budget), within [0, budget'].
+func carryOverTokens(oldRule, newRule *Rule, metric *ParamsMetric) {
+	if oldRule == nil || newRule == nil || metric == nil || metric.RuleTokenCounter == nil {
+		return
+	}
+	if newRule.MetricType != QPS || newRule.ControlBehavior != Reject {
+		return
+	}
+	budget := func(r *Rule, key interface{}) int64 {
+		t := r.Threshold
+		if v, ok := r.SpecificItems[key]; ok {
+			t = v
+		}
+		if t < 0 {
+			t = 0
+		}
+		if t+r.BurstCount < t {
+			return math.MaxInt64
+		}
+		return t + r.BurstCount
+	}
+	// (oldest first, so that looking the counters up leaves their order of use as it was)
+	for _, key := range metric.RuleTokenCounter.Keys() {
+		was, is := budget(oldRule, key), budget(newRule, key)
+		if was == is {
+			continue
+		}
+		left, ok := metric.RuleTokenCounter.Get(key)
+		if !ok || left == nil {
+			continue
+		}
+		for {
+			old := atomic.LoadInt64(left)
+			consumed := was - old
+			if consumed < 0 {
+				consumed = 0
+			}
+			now := is - consumed
+			if now < 0 {
+				now = 0
+			}
+			if atomic.CompareAndSwapInt64(left, old, now) {
+				break
+			}
+		}
+	}
 }
 
 func IsValidRule(rule *Rule) error {
